@@ -641,16 +641,28 @@ func r33ColumnOrder(c *core.Ctx) {
 		info := f.Pkg.TypesInfo
 		// one pass over t.columns, or several passes each building one list (names, placeholders): every loop of the
 		// function ranges over t.columns itself
-		var loop *ast.RangeStmt
-		var loops []*ast.RangeStmt
+		var loop *colLoop
+		var loops []*colLoop
 		nloops := 0
 		ast.Inspect(f.Decl.Body, func(n ast.Node) bool {
-			if r, ok := n.(*ast.RangeStmt); ok {
+			switch r := n.(type) {
+			case *ast.RangeStmt:
 				nloops++
 				if fv := core.FieldOf(info, r.X); fv != nil && fv.Name() == "columns" {
-					loops = append(loops, r)
+					loops = append(loops, &colLoop{r, r.Body})
 					if loop == nil {
-						loop = r
+						loop = loops[len(loops)-1]
+					}
+				}
+			case *ast.ForStmt:
+				// for i := 0; i < len(t.columns); i++ with i untouched in the body: the same pass
+				nloops++
+				if x := countedLoopOver(info, r); x != nil {
+					if fv := core.FieldOf(info, x); fv != nil && fv.Name() == "columns" {
+						loops = append(loops, &colLoop{r, r.Body})
+						if loop == nil {
+							loop = loops[len(loops)-1]
+						}
 					}
 				}
 			}
@@ -679,7 +691,7 @@ func r33ColumnOrder(c *core.Ctx) {
 			skipOK := true
 			notGeom := regexp.MustCompile(`^(\w+\.name(==|!=)\w+\.gcolumn|\w+\.gcolumn(==|!=)\w+\.name)$`)
 			napps := 0
-			var namesLoop *ast.RangeStmt
+			var namesLoop *colLoop
 			var namesSlice ast.Expr
 			for _, lp := range loops {
 				for _, app := range core.BuiltinCallsIn(info, lp.Body, "append") {
@@ -712,7 +724,7 @@ func r33ColumnOrder(c *core.Ctx) {
 			lastOK := false
 			if namesLoop != nil {
 				for _, s := range f.Decl.Body.List {
-					if s.Pos() < namesLoop.End() {
+					if s.Pos() < namesLoop.node.End() {
 						continue
 					}
 					if as, isAs := s.(*ast.AssignStmt); isAs && len(as.Rhs) == 1 {
@@ -724,7 +736,7 @@ func r33ColumnOrder(c *core.Ctx) {
 					}
 				}
 			}
-			c.Check(R, "insert-skips-geometry-and-appends-it-last/"+name, loop.Pos(), skipOK && lastOK,
+			c.Check(R, "insert-skips-geometry-and-appends-it-last/"+name, loop.node.Pos(), skipOK && lastOK,
 				"non-geometry columns in table order (skip predicate name != gcolumn), geometry column appended after the loop",
 				"insertSQL does not list the attribute columns in table order followed by the geometry column: writeFeatures binds attributes first and the geometry blob last")
 		}
@@ -912,4 +924,51 @@ func subjectOf(info *types.Info, call *ast.CallExpr) ast.Expr {
 		return call.Args[0]
 	}
 	return nil
+}
+
+// colLoop: one pass over a slice, written as a range loop or as a counted loop from 0 to len-1.
+type colLoop struct {
+	node ast.Node
+	Body *ast.BlockStmt
+}
+
+// countedLoopOver: fs is `for i := 0; i < len(X); i++ { … }` and the body never assigns i; returns X.
+func countedLoopOver(info *types.Info, fs *ast.ForStmt) ast.Expr {
+	init, ok := fs.Init.(*ast.AssignStmt)
+	if !ok || len(init.Lhs) != 1 || len(init.Rhs) != 1 || canon(init.Rhs[0]) != "0" {
+		return nil
+	}
+	iv := core.ObjOf(info, init.Lhs[0])
+	cond, ok := fs.Cond.(*ast.BinaryExpr)
+	if !ok || cond.Op != token.LSS || core.ObjOf(info, cond.X) != iv || iv == nil {
+		return nil
+	}
+	lc, ok := ast.Unparen(cond.Y).(*ast.CallExpr)
+	if !ok || !core.IsBuiltinCall(info, lc, "len") || len(lc.Args) != 1 {
+		return nil
+	}
+	post, ok := fs.Post.(*ast.IncDecStmt)
+	if !ok || post.Tok != token.INC || core.ObjOf(info, post.X) != iv {
+		return nil
+	}
+	assigned := false
+	ast.Inspect(fs.Body, func(n ast.Node) bool {
+		switch x := n.(type) {
+		case *ast.AssignStmt:
+			for _, l := range x.Lhs {
+				if core.ObjOf(info, l) == iv {
+					assigned = true
+				}
+			}
+		case *ast.IncDecStmt:
+			if core.ObjOf(info, x.X) == iv {
+				assigned = true
+			}
+		}
+		return true
+	})
+	if assigned {
+		return nil
+	}
+	return lc.Args[0]
 }
